@@ -425,10 +425,13 @@ class Check:
         os.makedirs(fb, exist_ok=True)
         famcov = dict(cases=0, ops=0, mismatches=0, crashes=0, oracle_failures=0, tags={})
         self.cov['families'][name] = famcov
-        model, err = build_model(fam, fb)
-        if model is None:
-            self.report(fam, None, 'model build failed (extraction of the Coq model)', dict(error=err[-2000:]), False)
-            return
+        if fam.get('extract'):
+            model, err = build_model(fam, fb)
+            if model is None:
+                self.report(fam, None, 'model build failed (extraction of the Coq model)', dict(error=err[-2000:]), False)
+                return
+        else:
+            model = None   # implementation-only family: the oracle alone judges the implementation's outputs
         exe, err = build_harness(fam, fb, sanitize=fam.get('sanitize', True))
         if exe is None:
             self.report(fam, None, 'harness does not build against the current tree', dict(error=err[-3000:]), False)
@@ -439,7 +442,10 @@ class Check:
         t0 = time.time()
         impl_tr, crashes = run_impl(exe, cases, fb, timeout=fam.get('impl_timeout', 900))
         t1 = time.time()
-        model_tr, merrs = run_model(model, cases, impl_tr, fb)
+        if model is not None:
+            model_tr, merrs = run_model(model, cases, impl_tr, fb)
+        else:
+            model_tr, merrs = dict(impl_tr), []
         t2 = time.time()
         famcov['impl_s'] = round(t1 - t0, 2); famcov['model_s'] = round(t2 - t1, 2)
         if merrs:
@@ -514,7 +520,10 @@ class Check:
         st = dict(crash=case['id'] in crashes, diff=None, sigs=set(), fails=[])
         if st['crash']:
             return st
-        model_tr, merrs = run_model(model, [case], impl_tr, fb, tag='shr_model', timeout=120, shards=1)
+        if model is not None:
+            model_tr, merrs = run_model(model, [case], impl_tr, fb, tag='shr_model', timeout=120, shards=1)
+        else:
+            model_tr = dict(impl_tr)
         irecs = impl_tr.get(case['id'], []); mrecs = model_tr.get(case['id'], [])
         st['diff'] = compare_case(case, irecs, mrecs)
         st['fails'] = fam['oracle'](case, irecs, mrecs) if fam.get('oracle') else []
